@@ -239,6 +239,23 @@ example : errorBody .decision { cfg with verbose := true } { negotiable := true 
     answer .decision { cfg with verbose := true } { negotiable := false } 200 (some panicking) = .http 503 false := by
   decide
 
+/-- **The log level never changes anything the caller sees.** The request-scoped logger (level `log.level`, put into
+the request context by the logger middleware / interceptor) is consulted by the pipeline code — at trace level
+`conditionalSubjectHandler.Execute` dumps the subject around the evaluation of the `if` condition — but only to write
+log lines: answer, error body and the mechanisms executed are the same at every level, for every entry point, rule and
+outcome vector; in particular a condition that cannot be evaluated fails the step at trace level as at any other. -/
+theorem c01_verdict_independent_of_log_level (ep : EntryPoint) (cfg : Cfg) (level : LogLevel) (view : ReqView)
+    (up : Nat) (found : Option Rule) :
+    serve ep { cfg with logLevel := level } view up found = serve ep cfg view up found ∧
+    answer ep { cfg with logLevel := level } view up found = answer ep cfg view up found ∧
+    (answer ep { cfg with logLevel := level } view up found).positive = (answer ep cfg view up found).positive := by
+  have h := serve_logLevel ep cfg level view up found
+  simp only [answer, h, and_self]
+
+/-- a witness the tie replays at every level: a non-evaluable condition on a step that is not continue-on-error -/
+example : answer .decision { cfg with logLevel := .trace } {} 200
+    (some { completing with finalizers := [⟨"hdr", .broken, .ok, false⟩] }) = .http 503 false := by decide
+
 /-- **From the configuration to the answer**: whatever rule set and default rule were loaded (rejected ones never
 reach a request), a positive answer means that the matching rule or the default rule applied and its effective
 pipeline — own stages, or the default rule's where a stage is left empty — completed. -/
